@@ -245,6 +245,19 @@ def main():
             items.append(("tm_left", v, v, False, 1, hi, "", 1, 2, True, model_for(hi)))
         if v == "ea":
             items.append(("tm_left", v, v, False, 1, lo, "", 2, 1, True, model_for(lo)))
+    if quick:
+        # dip / dea in the quick tier: the lowest-class diagonal block, the second-order coupling to
+        # the doubles class and the second-order doubles transition moment (the first orders at which
+        # the projection of the doubles precursor onto the hh / pp states does not vanish)
+        for v, m_hi in (("dip", (3, 2)), ("dea", (2, 3))):
+            lo, hi = SP2[v]
+            nc, na = DEF[v]
+            items.append(("tm_left", v, v, False, 2, hi, "", nc, na, True, m_hi))
+            items.append(("tm_left", v, v, False, 1, lo, "", nc, na, True, (2, 2)))
+            items.append(("expec", v, v, False, 2, lo, hi, 1, 1, True, m_hi))
+            items.append(("expec", v, v, False, 2, hi, lo, 1, 1, True, m_hi))
+            items.append(("expec", v, v, False, 1, lo, lo, 1, 1, True, (2, 2)))
+            items.append(("expec", v, v, False, 2, lo, lo, 1, 1, True, (2, 2)))
     # mixed left / right variants
     for (lv, rv) in (("ip", "pp"), ("pp", "ea")):
         lo_l, lo_r = SP2[lv][0], SP2[rv][0]
@@ -315,7 +328,7 @@ def main():
          "source_sha": driver.src_hash(*FILES)},
         {"function": "reference: vlib/isr.py + vlib/pt.py + detref.GenOp on bit strings"}]
     run.cov["bounds"] = {
-        "variants": variants + ["ip/pp", "pp/ea (mixed)"],
+        "variants": variants + ["ip/pp", "pp/ea (mixed)"] + (["dip, dea: lowest diagonal block order <=2, coupling blocks order 2, doubles transition moment order 2"] if quick else []),
         "orders": "expectation value: lowest/lowest <=2, couplings <=1, second class diagonal 0" + (" (thorough 1)" if not quick else "") + "; transition moments <=2",
         "operators": "1- and 2-particle for expectation values; default string per variant plus one non-default string for transition moments",
         "models": "n_o, n_v = max(2, number of h / p indices)" + ("" if quick else "; 3o3v for small blocks"),
